@@ -197,6 +197,18 @@ structure Sys where
   waiting : List Waiting := []
 deriving Repr, DecidableEq
 
+/-- what `NewProcess` is told about one event node -/
+structure NodeSpec where
+  kind     : NodeKind
+  incoming : Nat
+  defs     : List Ev
+  par      : Bool := false
+deriving Repr, DecidableEq
+
+/-- the consumers of a freshly created instance -/
+def Sys.init (f : Facts) (specs : List NodeSpec) : Sys :=
+  { nodes := specs.map (fun sp => Node.init f sp.kind sp.incoming sp.defs sp.par) }
+
 /-- outputs tagged with the position of the node that produced them -/
 abbrev Tagged := List (Nat × Out)
 
